@@ -72,13 +72,16 @@ PROPS = {
     "C13": {
         "title": "move strings: a rejected move changes nothing (frame contracts on find_uci / make_uci / is_move_legal)",
         "units": ["uci_moves"],
-        "deciding": [r"^Bitboard::(find_uci|make_uci|make_all_uci|is_move_legal|make|unmake|is_valid)$", r"^find_generated$", r"^str_trim$", r"^lemma_kings_preserved$"],
-        "owned": [r"^Bitboard::(find_uci|make_uci|make_all_uci|is_move_legal)$"],
+        "deciding": [r"^Bitboard::(find_uci|make_uci|make_all_uci|is_move_legal|is_any_move_legal|make|unmake|is_valid)$", r"^find_generated$", r"^str_trim$",
+                     r"^lemma_kings_preserved$", r"^SanSlice::", r"^(nondet|havoc_move|frame_is_any_move_legal|lemma_wf_preserved)$"],
+        "owned": [r"^Bitboard::(find_uci|make_uci|make_all_uci|is_move_legal|is_any_move_legal)$", r"^SanSlice::"],
         "design_ref": "DESIGN.md §3 C13",
         "assumptions": [
             "Bitboard::make / unmake / is_valid are assumed here with the contract files spec/contracts/{make,unmake,is_valid}.txt; their bodies are verified against the same files in units board_make (C02/C03) and attacks (C05)",
             "find_generated (ASSUMED): the iterator chain generate_pseudo_legal_moves().into_iter().find(..).ok_or_else(..) returns an error or one generated move; generated moves of a legal position satisfy move_wf and capture no king (generator contract, C01)",
             "not decided: that the move selected is the one the text denotes (string equality over format!)",
+            "uci_to_pgn is verified as a mechanical control-flow/board-mutation slice (tools/skeleton.py): conditions nondeterministic, closures as loops, move variables assumed to be generated moves of the current position; only the frame claim is decided for it",
+            "make_all_uci (rollback list) is not yet under contract",
             "precondition legal_pos: well-formed position in which the side not to move is not in check",
         ],
     },
